@@ -36,6 +36,11 @@ structure RInv (K : Nat) (st : St) : Prop where
   effk : ∀ i, K ≤ i → i < st.prog.length → (st.rs.get i).kind = .eff
   srcs : ∀ i, K ≤ i → ∀ x ∈ (st.rs.get i).sources, x < K
   subs : ∀ i, i < K → ∀ x ∈ (st.rs.get i).subs, K ≤ x ∧ x < st.prog.length
+  /-- nothing subscribes to an effect -/
+  esubs : ∀ i, K ≤ i → (st.rs.get i).subs = []
+  nd : ∀ i, (st.rs.get i).subs.Nodup
+  /-- exact subscriptions: a subscriber of `i` has `i` among the sources of its last run -/
+  exact : ∀ i e, e ∈ (st.rs.get i).subs → i ∈ (st.rs.get e).sources
 
 /-- the from-scratch environment restricted to signals is the stored values -/
 theorem RInv.env_sig {K : Nat} {st : St} (h : RInv K st) {i : Nat} (hi : i < K) :
@@ -158,7 +163,24 @@ theorem newEff_spec {K : Nat} {st : St} (h : RInv K st) {x : Expr} (hx : sigOnly
     rw [run.acts.len]; exact hl1
   refine ⟨he, hv, ?_, hprog, ?_, ?_, ?_, rfl, rfl, rfl, rfl, rfl, rfl⟩
   · -- RInv
-    refine ⟨by rw [hprog, hlen']; simp [hlen], ?_, by rw [hprog]; simp; have := h.kle; omega, ?_, ?_, ?_, ?_, ?_, ?_⟩
+    have hnd1 : ∀ i, (s1.get i).subs.Nodup := by
+      intro i
+      rcases Nat.lt_trichotomy i st.prog.length with hlt | heq | hgt
+      · rw [g1lt i hlt]; exact h.nd i
+      · subst heq; rw [g1e]; simp [initNode]
+      · rw [g1gt i hgt]; simp
+    have hfresh1 : ∀ i, st.prog.length ∉ (s1.get i).subs := by
+      intro i hm
+      rcases Nat.lt_trichotomy i st.prog.length with hlt | heq | hgt
+      · rw [g1lt i hlt] at hm
+        rcases Nat.lt_or_ge i K with hk | hk
+        · have := h.subs i hk _ hm; omega
+        · rw [h.esubs i hk] at hm; simp at hm
+      · subst heq; rw [g1e] at hm; simp [initNode] at hm
+      · rw [g1gt i hgt] at hm; simp at hm
+    have honly := run.only hnd1 (fun i hm => absurd hm (hfresh1 i))
+    refine ⟨by rw [hprog, hlen']; simp [hlen], ?_, by rw [hprog]; simp; have := h.kle; omega, ?_, ?_, ?_, ?_, ?_, ?_,
+      ?_, run.nodup hnd1, ?_⟩
     · rw [run.acts.obs, ← hs1]; show s0.obs = none; rw [← hs0]; exact h.obs
     · intro i hi
       have hne : i ≠ st.prog.length := by have := h.kle; omega
@@ -204,6 +226,36 @@ theorem newEff_spec {K : Nat} {st : St} (h : RInv K st) {x : Expr} (hx : sigOnly
       · rw [run.acts.subs i y hye, g1lt i (by have := h.kle; omega)] at hy
         have := h.subs i hi y hy
         exact ⟨this.1, by omega⟩
+    · -- esubs
+      intro i hki
+      apply List.eq_nil_iff_forall_not_mem.2
+      intro y hy
+      by_cases hye : y = st.prog.length
+      · subst hye
+        have := honly i hy
+        have := readsU_below x hb i (by rw [← hrd]; exact this)
+        omega
+      · rw [run.acts.subs i y hye] at hy
+        rcases Nat.lt_trichotomy i st.prog.length with hlt | heq | hgt
+        · rw [g1lt i hlt, h.esubs i hki] at hy; simp at hy
+        · subst heq; rw [g1e] at hy; simp [initNode] at hy
+        · rw [g1gt i hgt] at hy; simp at hy
+    · -- exact
+      intro i y hy
+      by_cases hye : y = st.prog.length
+      · subst hye
+        rw [run.srcs_e]; exact honly i hy
+      · rw [run.acts.subs i y hye] at hy
+        rw [run.acts.srcs y hye]
+        rcases Nat.lt_trichotomy i st.prog.length with hlt | heq | hgt
+        · rw [g1lt i hlt] at hy
+          have hylt : y < st.prog.length := by
+            rcases Nat.lt_or_ge i K with hk | hk
+            · exact (h.subs i hk y hy).2
+            · rw [h.esubs i hk] at hy; simp at hy
+          rw [g1lt y hylt]; exact h.exact i y hy
+        · subst heq; rw [g1e] at hy; simp [initNode] at hy
+        · rw [g1gt i hgt] at hy; simp at hy
   · -- Ext
     refine ⟨⟨[.eff x], hprog⟩, fun _ hf => hf.elim, ?_, ?_, fun _ ht => ht⟩
     · intro i hi _
@@ -345,5 +397,716 @@ theorem GoodAttrs.ext {K : Nat} {A : Nat → Prop} {st st' : St} (hi : RInv K st
        simp only [List.flatMap_cons, List.mem_append]; exact Or.inr he))⟩
   | [], _ :: _, h, _ => h.elim
   | _ :: _, [], h, _ => h.elim
+
+
+theorem Good.ext {K : Nat} {A : Nat → Prop} {st st' : St} (hi : RInv K st) (hx : Ext K A st st') :
+    ∀ (v : View) (t : RState), Good K st v t → (∀ e ∈ effsOf t, ¬ A e) → Good K st' v t := by
+  intro v
+  induction v with
+  | text s => intro t h _; cases t <;> simp only [Good] at h ⊢ <;> exact h
+  | unit => intro t h _; cases t <;> simp only [Good] at h ⊢
+  | elem tag attrs kid ih =>
+    intro t h ha
+    cases t <;> simp only [Good] at h ⊢
+    next n tag' as k =>
+      refine ⟨h.1, GoodAttrs.ext hi hx h.2.1 (fun e he => ha e (by simp [effsOf, he])), ?_⟩
+      exact ih k h.2.2 (fun e he => ha e (by simp [effsOf, he]))
+  | seq a b iha ihb =>
+    intro t h ha
+    cases t <;> simp only [Good] at h ⊢
+    next sa sb =>
+      exact ⟨iha sa h.1 (fun e he => ha e (by simp [effsOf, he])),
+        ihb sb h.2 (fun e he => ha e (by simp [effsOf, he]))⟩
+  | dynText x =>
+    intro t h ha
+    cases t <;> simp only [Good] at h ⊢
+    next e x' n last => exact ⟨h.1, h.2.ext hi hx (ha e (by simp [effsOf]))⟩
+  | either c a b iha ihb =>
+    intro t h ha
+    cases t <;> simp only [Good] at h ⊢
+    next e c' a' b' left inner =>
+      refine ⟨h.1, h.2.1, h.2.2.1, h.2.2.2.1.ext hi hx (ha e (by simp [effsOf])), ?_, ?_⟩
+      · intro hl; exact iha inner (h.2.2.2.2.1 hl) (fun e he => ha e (by simp [effsOf, he]))
+      · intro hl; exact ihb inner (h.2.2.2.2.2 hl) (fun e he => ha e (by simp [effsOf, he]))
+  | «show» c a b _ _ => intro t h _; cases t <;> simp only [Good] at h
+  | forKeyed sel lists => intro t h _; cases t <;> simp only [Good] at h
+
+
+/-! ## a tree without pending effects shows the fresh render -/
+
+theorem EffOK.cur_of_idle {K : Nat} {st : St} {e : Nat} {x : Expr} {cur : Int → Prop}
+    (h : EffOK K st e x cur) (hn : ¬ pending st e) : cur (evalPure (Reactive.envOf st.rs) x) := by
+  rcases h.ok with hp | hc
+  · exact (hn hp).elim
+  · exact hc.2.1
+
+theorem GoodAttr.out {K : Nat} {st : St} : ∀ {a : Attr} {s : AState}, GoodAttr K st a s →
+    (∀ e ∈ s.effs, ¬ pending st e) → s.out = renderAttr (Reactive.envOf st.rs) a
+  | .stat _ _, .stat _ _, h, _ => by simp only [GoodAttr] at h; simp [AState.out, renderAttr, h.1, h.2]
+  | .dyn _ _, .dyn e _ _ _, h, hn => by
+    have := h.2.2.cur_of_idle (hn e (by simp [AState.effs]))
+    simp [AState.out, renderAttr, h.1, h.2.1, this]
+  | .cls _ _, .cls e _ _ _, h, hn => by
+    have := h.2.2.cur_of_idle (hn e (by simp [AState.effs]))
+    simp [AState.out, renderAttr, h.1, ← h.2.1, this]
+  | .sty _ _, .sty e _ _ _, h, hn => by
+    have := h.2.2.cur_of_idle (hn e (by simp [AState.effs]))
+    simp [AState.out, renderAttr, h.1, h.2.1, this]
+  | .stat _ _, .dyn _ _ _ _, h, _ => h.elim
+  | .stat _ _, .cls _ _ _ _, h, _ => h.elim
+  | .stat _ _, .sty _ _ _ _, h, _ => h.elim
+  | .dyn _ _, .stat _ _, h, _ => h.elim
+  | .dyn _ _, .cls _ _ _ _, h, _ => h.elim
+  | .dyn _ _, .sty _ _ _ _, h, _ => h.elim
+  | .cls _ _, .stat _ _, h, _ => h.elim
+  | .cls _ _, .dyn _ _ _ _, h, _ => h.elim
+  | .cls _ _, .sty _ _ _ _, h, _ => h.elim
+  | .sty _ _, .stat _ _, h, _ => h.elim
+  | .sty _ _, .dyn _ _ _ _, h, _ => h.elim
+  | .sty _ _, .cls _ _ _ _, h, _ => h.elim
+
+theorem GoodAttrs.out {K : Nat} {st : St} : ∀ {as : List Attr} {ss : List AState}, GoodAttrs K st as ss →
+    (∀ e ∈ ss.flatMap AState.effs, ¬ pending st e) →
+    ss.map AState.out = as.map (renderAttr (Reactive.envOf st.rs))
+  | [], [], _, _ => rfl
+  | _ :: _, s :: ss, h, hn => by
+    simp only [List.map_cons]
+    rw [h.1.out (fun e he => hn e (by simp [he])),
+      GoodAttrs.out h.2 (fun e he => hn e (by
+        simp only [List.flatMap_cons, List.mem_append]; exact Or.inr he))]
+  | [], _ :: _, h, _ => h.elim
+  | _ :: _, [], h, _ => h.elim
+
+theorem Good.serialize_eq {K : Nat} {st : St} :
+    ∀ (v : View) (t : RState), Good K st v t → (∀ e ∈ effsOf t, ¬ pending st e) →
+      serialize t = render (Reactive.envOf st.rs) v := by
+  intro v
+  induction v with
+  | text s => intro t h _; cases t <;> simp only [Good] at h; simp [RView.serialize, render, h]
+  | unit => intro t h _; cases t <;> simp only [Good] at h; simp [RView.serialize, render]
+  | elem tag attrs kid ih =>
+    intro t h hn
+    cases t <;> simp only [Good] at h
+    next n tag' as k =>
+      simp only [RView.serialize, render]
+      rw [h.2.1.out (fun e he => hn e (by simp [effsOf, he])),
+        ih k h.2.2 (fun e he => hn e (by simp [effsOf, he])), h.1]
+  | seq a b iha ihb =>
+    intro t h hn
+    cases t <;> simp only [Good] at h
+    next sa sb =>
+      simp only [RView.serialize, render]
+      rw [iha sa h.1 (fun e he => hn e (by simp [effsOf, he])),
+        ihb sb h.2 (fun e he => hn e (by simp [effsOf, he]))]
+  | dynText x =>
+    intro t h hn
+    cases t <;> simp only [Good] at h
+    next e x' n last =>
+      have := h.2.cur_of_idle (hn e (by simp [effsOf]))
+      simp only [RView.serialize, render, this]
+  | either c a b iha ihb =>
+    intro t h hn
+    cases t <;> simp only [Good] at h
+    next e c' a' b' left inner =>
+      have hc := h.2.2.2.1.cur_of_idle (hn e (by simp [effsOf]))
+      simp only [RView.serialize, render]
+      cases hl : left with
+      | true =>
+        rw [hl] at hc
+        rw [← hc]; simp only [if_true]
+        exact iha inner (h.2.2.2.2.1 hl) (fun e he => hn e (by simp [effsOf, he]))
+      | false =>
+        rw [hl] at hc
+        rw [← hc]; simp only [Bool.false_eq_true, if_false]
+        exact ihb inner (h.2.2.2.2.2 hl) (fun e he => hn e (by simp [effsOf, he]))
+  | «show» c a b _ _ => intro t h _; cases t <;> simp only [Good] at h
+  | forKeyed sel lists => intro t h _; cases t <;> simp only [Good] at h
+
+
+/-! ## build -/
+
+/-- the bookkeeping that `build` does not touch -/
+structure Same (st st' : St) : Prop where
+  zombies : st'.zombies = st.zombies
+  root : st'.root = st.root
+  rootN : st'.rootN = st.rootN
+  disposed : st'.disposed = st.disposed
+
+theorem Same.refl (st : St) : Same st st := ⟨rfl, rfl, rfl, rfl⟩
+theorem Same.trans {a b c : St} (h1 : Same a b) (h2 : Same b c) : Same a c :=
+  ⟨h2.zombies.trans h1.zombies, h2.root.trans h1.root, h2.rootN.trans h1.rootN,
+   h2.disposed.trans h1.disposed⟩
+
+theorem RInv.of_rs_prog {K : Nat} {st st' : St} (h : RInv K st) (hp : st'.prog = st.prog) (hr : st'.rs = st.rs) :
+    RInv K st' := by
+  refine ⟨?_, ?_, ?_, ?_, ?_, ?_, ?_, ?_, ?_, ?_, ?_, ?_⟩
+  · rw [hp, hr]; exact h.len
+  · rw [hr]; exact h.obs
+  · rw [hp]; exact h.kle
+  · rw [hr]; exact h.sigs
+  · rw [hp]; exact h.sigp
+  · rw [hp]; exact h.effp
+  · rw [hp, hr]; exact h.effk
+  · rw [hr]; exact h.srcs
+  · rw [hp, hr]; exact h.subs
+  · rw [hr]; exact h.esubs
+  · rw [hr]; exact h.nd
+  · rw [hr]; exact h.exact
+
+theorem Ext.of_rs_prog {K : Nat} (A : Nat → Prop) (hA : ∀ i, A i → K ≤ i) {st st' : St}
+    (hp : st'.prog = st.prog) (hr : st'.rs = st.rs) (ht : ∀ e, e ∈ st.tasks → e ∈ st'.tasks) : Ext K A st st' :=
+  ⟨⟨[], by rw [hp]; simp⟩, hA, fun _ _ _ => by rw [hr], fun _ _ _ _ => by rw [hr], ht⟩
+
+theorem NewEff.effOK {K : Nat} {st st1 st2 : St} {x : Expr} {e : Nat} {v : Int} {cur : Int → Prop}
+    (hn : NewEff K st x e v st1) (hi : RInv K st) (hx : Ext K (fun _ => False) st1 st2) (ht : e ∈ st2.tasks)
+    (hc : cur v) : EffOK K st2 e x cur := by
+  have hs : sigOnly K x = true := by
+    obtain ⟨y, hy, hs⟩ := hn.inv.effp e (by rw [hn.he]; exact hi.kle) (by rw [hn.prog, hn.he]; simp)
+    rw [hn.prog, hn.he] at hy
+    simp at hy
+    rw [hy]; exact hs
+  have henv := envOf_ext_expr hn.ext hi hs
+  have hnode := hn.node
+  simp only [RView.ctl, Prod.mk.injEq] at hnode
+  have h1 : EffOK K { st1 with tasks := [e] } e x cur := by
+    refine ⟨by rw [hn.he]; exact hi.kle, ?_, ?_, hnode.2.2.2.2.2.2.2.2.1, hnode.2.2.2.2.2.2.2.2.2,
+      by simp, Or.inr ⟨hnode.2.2.2.1, ?_, ?_⟩⟩
+    · show e < st1.prog.length; rw [hn.prog, hn.he]; simp
+    · show st1.prog[e]? = _; rw [hn.prog, hn.he]; simp
+    · show cur (evalPure (Reactive.envOf st1.rs) x); rw [henv.1, ← hn.hv]; exact hc
+    · intro i hr
+      have hr' : i ∈ readsU (Reactive.envOf st1.rs) x := hr
+      rw [henv.2] at hr'
+      exact hn.subd i hr'
+  have hi1 : RInv K { st1 with tasks := [e] } := hn.inv.of_rs_prog rfl rfl
+  have hx1 : Ext K (fun _ => False) { st1 with tasks := [e] } st2 :=
+    ⟨hx.pre, hx.aeff, hx.ctl, hx.subs, fun e' he' => by
+      have : e' = e := by simpa using he'
+      rw [this]; exact ht⟩
+  exact h1.ext hi1 hx1 (fun hf => hf)
+
+/-- result of building one attribute -/
+structure BuiltAttr (K : Nat) (st : St) (a : Attr) (s : AState) (st' : St) : Prop where
+  inv : RInv K st'
+  ext : Ext K (fun _ => False) st st'
+  good : GoodAttr K st' a s
+  fresh : ∀ e ∈ s.effs, st.prog.length ≤ e ∧ e < st'.prog.length
+  same : Same st st'
+
+theorem spawn_ext {K : Nat} (st : St) (e : Nat) : Ext K (fun _ => False) st (st.spawn e) :=
+  Ext.of_rs_prog _ (fun _ hf => hf.elim) rfl rfl (fun e' he' => by simp [St.spawn, he'])
+
+theorem buildAttr_spec {K : Nat} {st : St} (hi : RInv K st) :
+    ∀ (a : Attr), a.exprOk K = true →
+      BuiltAttr K st a (buildAttr st a).1 (buildAttr st a).2.1
+  | .stat n v, _ => ⟨hi, Ext.refl _ _ (fun _ hf => hf.elim) _, ⟨rfl, rfl⟩, by simp [buildAttr, AState.effs], Same.refl _⟩
+  | .dyn n x, hx => by
+    have hs : sigOnly K x = true := by simpa [Attr.exprOk, sigOnly] using hx
+    have hn := newEff_spec hi hs
+    simp only [buildAttr]
+    refine ⟨hn.inv.of_rs_prog rfl rfl, hn.ext.trans (spawn_ext _ _), ?_, ?_, ?_⟩
+    · exact ⟨rfl, rfl, hn.effOK hi (spawn_ext _ _) (by simp [St.spawn]) rfl⟩
+    · intro e he
+      simp only [AState.effs, List.mem_singleton] at he
+      rw [he, hn.he]; show _ ∧ _ < (newEff st x).2.2.prog.length; rw [hn.prog]; simp
+    · exact ⟨hn.zombies, hn.root, hn.rootN, hn.disposed⟩
+  | .cls n x, hx => by
+    have hs : sigOnly K x = true := by simpa [Attr.exprOk, sigOnly] using hx
+    have hn := newEff_spec hi hs
+    simp only [buildAttr]
+    refine ⟨hn.inv.of_rs_prog rfl rfl, hn.ext.trans (spawn_ext _ _), ?_, ?_, ?_⟩
+    · exact ⟨rfl, rfl, hn.effOK hi (spawn_ext _ _) (by simp [St.spawn]) rfl⟩
+    · intro e he
+      simp only [AState.effs, List.mem_singleton] at he
+      rw [he, hn.he]; show _ ∧ _ < (newEff st x).2.2.prog.length; rw [hn.prog]; simp
+    · exact ⟨hn.zombies, hn.root, hn.rootN, hn.disposed⟩
+  | .sty n x, hx => by
+    have hs : sigOnly K x = true := by simpa [Attr.exprOk, sigOnly] using hx
+    have hn := newEff_spec hi hs
+    simp only [buildAttr]
+    refine ⟨hn.inv.of_rs_prog rfl rfl, hn.ext.trans (spawn_ext _ _), ?_, ?_, ?_⟩
+    · exact ⟨rfl, rfl, hn.effOK hi (spawn_ext _ _) (by simp [St.spawn]) rfl⟩
+    · intro e he
+      simp only [AState.effs, List.mem_singleton] at he
+      rw [he, hn.he]; show _ ∧ _ < (newEff st x).2.2.prog.length; rw [hn.prog]; simp
+    · exact ⟨hn.zombies, hn.root, hn.rootN, hn.disposed⟩
+
+
+
+/-! equation lemmas in projection form -/
+
+theorem buildAttrs_cons (a : Attr) (as : List Attr) (st : St) :
+    buildAttrs (a :: as) st =
+      ((buildAttr st a).1 :: (buildAttrs as (buildAttr st a).2.1).1,
+       (buildAttrs as (buildAttr st a).2.1).2.1,
+       (buildAttr st a).2.2 + (buildAttrs as (buildAttr st a).2.1).2.2) := rfl
+
+theorem build_elem (tag : String) (attrs : List Attr) (kid : View) (st : St) :
+    build (.elem tag attrs kid) st =
+      (.elem ⟨st.alloc.1.id, (buildAttrs attrs st.alloc.2).2.2 +
+          (build kid (buildAttrs attrs st.alloc.2).2.1).1.tops⟩ tag (buildAttrs attrs st.alloc.2).1
+          (build kid (buildAttrs attrs st.alloc.2).2.1).1,
+       (build kid (buildAttrs attrs st.alloc.2).2.1).2) := rfl
+
+theorem build_seq (a b : View) (st : St) :
+    build (.seq a b) st = (.seq (build a st).1 (build b (build a st).2).1, (build b (build a st).2).2) := rfl
+
+theorem build_dynText (x : Expr) (st : St) :
+    build (.dynText x) st =
+      (.dynText (newEff st x).1 x (newEff st x).2.2.alloc.1 (newEff st x).2.1,
+       (newEff st x).2.2.alloc.2.spawn (newEff st x).1) := rfl
+
+theorem build_either (c : Expr) (a b : View) (st : St) :
+    build (.either c a b) st =
+      (.either (newEff st c).1 c a b ((newEff st c).2.1 != 0)
+          (if (newEff st c).2.1 != 0 then build a (newEff st c).2.2 else build b (newEff st c).2.2).1,
+       (if (newEff st c).2.1 != 0 then build a (newEff st c).2.2 else build b (newEff st c).2.2).2.spawn
+          (newEff st c).1) := by
+  simp only [build]
+
+structure BuiltAttrs (K : Nat) (st : St) (as : List Attr) (ss : List AState) (st' : St) : Prop where
+  inv : RInv K st'
+  ext : Ext K (fun _ => False) st st'
+  good : GoodAttrs K st' as ss
+  fresh : ∀ e ∈ ss.flatMap AState.effs, st.prog.length ≤ e ∧ e < st'.prog.length
+  nodup : (ss.flatMap AState.effs).Nodup
+  same : Same st st'
+
+theorem AState.effs_nodup : ∀ (s : AState), s.effs.Nodup
+  | .stat _ _ => by simp [AState.effs]
+  | .dyn _ _ _ _ => by simp [AState.effs]
+  | .cls _ _ _ _ => by simp [AState.effs]
+  | .sty _ _ _ _ => by simp [AState.effs]
+
+theorem buildAttrs_spec {K : Nat} : ∀ (as : List Attr) (st : St), RInv K st → as.all (Attr.exprOk K) = true →
+    BuiltAttrs K st as (buildAttrs as st).1 (buildAttrs as st).2.1
+  | [], st, hi, _ => ⟨hi, Ext.refl _ _ (fun _ hf => hf.elim) _, trivial, by simp [buildAttrs], by simp [buildAttrs], Same.refl _⟩
+  | a :: as, st, hi, ha => by
+    simp only [List.all_cons, Bool.and_eq_true] at ha
+    have h1 := buildAttr_spec hi a ha.1
+    have h2 := buildAttrs_spec as (buildAttr st a).2.1 h1.inv ha.2
+    rw [buildAttrs_cons]
+    dsimp only
+    refine ⟨h2.inv, h1.ext.trans h2.ext, ⟨h1.good.ext h1.inv h2.ext (fun _ _ hf => hf), h2.good⟩, ?_, ?_,
+      h1.same.trans h2.same⟩
+    · intro e he
+      simp only [List.flatMap_cons, List.mem_append] at he
+      rcases he with he | he
+      · have := h1.fresh e he; have := h2.ext.len_le; omega
+      · have := h2.fresh e he; have := h1.ext.len_le; omega
+    · simp only [List.flatMap_cons]
+      refine List.nodup_append.2 ⟨AState.effs_nodup _, h2.nodup, ?_⟩
+      intro x hx y hy hxy
+      have := h1.fresh x hx; have := h2.fresh y hy; omega
+
+/-- the view contains only the constructors covered by the proof: static structure, dynamic leaves
+and `either` -/
+def View.core : View → Bool
+  | .text _ => true
+  | .unit => true
+  | .elem _ _ kid => kid.core
+  | .seq a b => a.core && b.core
+  | .dynText _ => true
+  | .either _ a b => a.core && b.core
+  | .show _ _ _ => false
+  | .forKeyed _ _ => false
+
+structure Built (K : Nat) (st : St) (v : View) (t : RState) (st' : St) : Prop where
+  inv : RInv K st'
+  ext : Ext K (fun _ => False) st st'
+  good : Good K st' v t
+  fresh : ∀ e ∈ effsOf t, st.prog.length ≤ e ∧ e < st'.prog.length
+  nodup : (effsOf t).Nodup
+  same : Same st st'
+
+theorem alloc_inv {K : Nat} {st : St} (hi : RInv K st) : RInv K st.alloc.2 := hi.of_rs_prog rfl rfl
+theorem alloc_ext {K : Nat} (st : St) : Ext K (fun _ => False) st st.alloc.2 :=
+  Ext.of_rs_prog _ (fun _ hf => hf.elim) rfl rfl (fun _ h => h)
+theorem alloc_same (st : St) : Same st st.alloc.2 := ⟨rfl, rfl, rfl, rfl⟩
+theorem spawn_inv {K : Nat} {st : St} (hi : RInv K st) (e : Nat) : RInv K (st.spawn e) := hi.of_rs_prog rfl rfl
+theorem spawn_same (st : St) (e : Nat) : Same st (st.spawn e) := ⟨rfl, rfl, rfl, rfl⟩
+
+theorem build_spec {K : Nat} : ∀ (v : View) (st : St), RInv K st → v.wf K = true → v.core = true →
+    Built K st v (build v st).1 (build v st).2 := by
+  intro v
+  induction v with
+  | text s =>
+    intro st hi _ _
+    exact ⟨alloc_inv hi, alloc_ext st, rfl, by simp [build, effsOf], by simp [build, effsOf], alloc_same st⟩
+  | unit =>
+    intro st hi _ _
+    exact ⟨alloc_inv hi, alloc_ext st, trivial, by simp [build, effsOf], by simp [build, effsOf], alloc_same st⟩
+  | elem tag attrs kid ih =>
+    intro st hi hw hc
+    simp only [View.wf, Bool.and_eq_true] at hw
+    simp only [View.core] at hc
+    have h1 := buildAttrs_spec attrs st.alloc.2 (alloc_inv hi) hw.1.1
+    have h2 := ih (buildAttrs attrs st.alloc.2).2.1 h1.inv hw.2 hc
+    rw [build_elem]
+    dsimp only
+    refine ⟨h2.inv, ((alloc_ext st).trans h1.ext).trans h2.ext,
+      ⟨rfl, h1.good.ext h1.inv h2.ext (fun _ _ hf => hf), h2.good⟩, ?_, ?_,
+      ((alloc_same st).trans h1.same).trans h2.same⟩
+    · intro e he
+      simp only [effsOf, List.mem_append] at he
+      rcases he with he | he
+      · have := h1.fresh e he; have := h2.ext.len_le
+        have : st.alloc.2.prog.length = st.prog.length := rfl
+        omega
+      · have := h2.fresh e he; have := h1.ext.len_le
+        have : st.alloc.2.prog.length = st.prog.length := rfl
+        omega
+    · simp only [effsOf]
+      refine List.nodup_append.2 ⟨h1.nodup, h2.nodup, ?_⟩
+      intro x hx y hy hxy
+      have := h1.fresh x hx; have := h2.fresh y hy; omega
+  | seq a b iha ihb =>
+    intro st hi hw hc
+    simp only [View.wf, Bool.and_eq_true] at hw
+    simp only [View.core, Bool.and_eq_true] at hc
+    have h1 := iha st hi hw.1 hc.1
+    have h2 := ihb (build a st).2 h1.inv hw.2 hc.2
+    rw [build_seq]
+    dsimp only
+    refine ⟨h2.inv, h1.ext.trans h2.ext, ⟨Good.ext h1.inv h2.ext _ _ h1.good (fun _ _ hf => hf), h2.good⟩,
+      ?_, ?_, h1.same.trans h2.same⟩
+    · intro e he
+      simp only [effsOf, List.mem_append] at he
+      rcases he with he | he
+      · have := h1.fresh e he; have := h2.ext.len_le; omega
+      · have := h2.fresh e he; have := h1.ext.len_le; omega
+    · simp only [effsOf]
+      refine List.nodup_append.2 ⟨h1.nodup, h2.nodup, ?_⟩
+      intro x hx y hy hxy
+      have := h1.fresh x hx; have := h2.fresh y hy; omega
+  | dynText x =>
+    intro st hi hw _
+    have hs : sigOnly K x = true := by simpa [View.wf, sigOnly] using hw
+    have hn := newEff_spec hi hs
+    rw [build_dynText]
+    dsimp only
+    have hx2 : Ext K (fun _ => False) (newEff st x).2.2 ((newEff st x).2.2.alloc.2.spawn (newEff st x).1) :=
+      (alloc_ext _).trans (spawn_ext _ _)
+    refine ⟨spawn_inv (alloc_inv hn.inv) _, hn.ext.trans hx2,
+      ⟨rfl, hn.effOK hi hx2 (by simp [St.spawn]) rfl⟩, ?_, by simp [effsOf],
+      ⟨hn.zombies, hn.root, hn.rootN, hn.disposed⟩⟩
+    intro e he
+    simp only [effsOf, List.mem_singleton] at he
+    rw [he, hn.he]
+    show _ ∧ _ < (newEff st x).2.2.prog.length
+    rw [hn.prog]; simp
+  | either c a b iha ihb =>
+    intro st hi hw hc
+    simp only [View.wf, Bool.and_eq_true] at hw
+    simp only [View.core, Bool.and_eq_true] at hc
+    have hs : sigOnly K c = true := by simp [sigOnly, hw.1.1.1.1, hw.1.1.1.2, hw.1.1.2]
+    have hn := newEff_spec hi hs
+    rw [build_either]
+    dsimp only
+    by_cases hv : ((newEff st c).2.1 != 0) = true
+    · simp only [hv, if_true]
+      have h2 := iha (newEff st c).2.2 hn.inv hw.1.2 hc.1
+      have hx2 : Ext K (fun _ => False) (newEff st c).2.2 ((build a (newEff st c).2.2).2.spawn (newEff st c).1) :=
+        h2.ext.trans (spawn_ext _ _)
+      refine ⟨spawn_inv h2.inv _, hn.ext.trans hx2, ?_, ?_, ?_,
+        (Same.mk hn.zombies hn.root hn.rootN hn.disposed).trans (h2.same.trans (spawn_same _ _))⟩
+      · refine ⟨rfl, rfl, rfl, hn.effOK hi hx2 (by simp [St.spawn]) (by simp [hv]), ?_, ?_⟩
+        · intro _; exact Good.ext h2.inv (spawn_ext _ _) _ _ h2.good (fun _ _ hf => hf)
+        · intro hf; simp at hf
+      · intro e he
+        simp only [effsOf, List.mem_cons] at he
+        have hl1 : (newEff st c).2.2.prog.length = st.prog.length + 1 := by rw [hn.prog]; simp
+        show st.prog.length ≤ e ∧ e < (build a (newEff st c).2.2).2.prog.length
+        have := h2.ext.len_le
+        rcases he with he | he
+        · have : e = st.prog.length := he.trans hn.he
+          omega
+        · have := h2.fresh e he; omega
+      · simp only [effsOf]
+        refine List.nodup_cons.2 ⟨?_, h2.nodup⟩
+        intro hm
+        have := h2.fresh _ hm
+        rw [hn.he] at this
+        have hl1 : (newEff st c).2.2.prog.length = st.prog.length + 1 := by rw [hn.prog]; simp
+        omega
+    · simp only [hv, Bool.false_eq_true, if_false]
+      have h2 := ihb (newEff st c).2.2 hn.inv hw.2 hc.2
+      have hx2 : Ext K (fun _ => False) (newEff st c).2.2 ((build b (newEff st c).2.2).2.spawn (newEff st c).1) :=
+        h2.ext.trans (spawn_ext _ _)
+      refine ⟨spawn_inv h2.inv _, hn.ext.trans hx2, ?_, ?_, ?_,
+        (Same.mk hn.zombies hn.root hn.rootN hn.disposed).trans (h2.same.trans (spawn_same _ _))⟩
+      · refine ⟨rfl, rfl, rfl, hn.effOK hi hx2 (by simp [St.spawn]) (by simp [hv]), ?_, ?_⟩
+        · intro hf; simp at hf
+        · intro _; exact Good.ext h2.inv (spawn_ext _ _) _ _ h2.good (fun _ _ hf => hf)
+      · intro e he
+        simp only [effsOf, List.mem_cons] at he
+        have hl1 : (newEff st c).2.2.prog.length = st.prog.length + 1 := by rw [hn.prog]; simp
+        show st.prog.length ≤ e ∧ e < (build b (newEff st c).2.2).2.prog.length
+        have := h2.ext.len_le
+        rcases he with he | he
+        · have : e = st.prog.length := he.trans hn.he
+          omega
+        · have := h2.fresh e he; omega
+      · simp only [effsOf]
+        refine List.nodup_cons.2 ⟨?_, h2.nodup⟩
+        intro hm
+        have := h2.fresh _ hm
+        rw [hn.he] at this
+        have hl1 : (newEff st c).2.2.prog.length = st.prog.length + 1 := by rw [hn.prog]; simp
+        omega
+  | «show» c a b _ _ => intro st _ _ hc; simp [View.core] at hc
+  | forKeyed sel lists => intro st _ _ hc; simp [View.core] at hc
+
+
+/-! ## writing a signal -/
+
+theorem setSig_get {K : Nat} {st : St} (hi : RInv K st) {id : Nat} (hid : id < K) (v : Int) :
+    (setSig st id v).rs.nodes.length = st.rs.nodes.length ∧ (setSig st id v).rs.obs = st.rs.obs ∧
+    ∀ i, (setSig st id v).rs.get i =
+      if i = id then { st.rs.get id with val := some v, ver := (st.rs.get id).ver + 1 }
+      else if i ∈ (st.rs.get id).subs then wake (st.rs.get i) else st.rs.get i := by
+  obtain ⟨w, hw⟩ := hi.sigp id hid
+  have : (setSig st id v).rs = setSignal (fuelFor st.prog) st.rs id v := by
+    simp only [setSig, Reactive.step, hw]
+  rw [this]
+  refine setSignal_eff _ _ _ _ (by rw [← hi.len]; have := hi.kle; omega) ?_
+  intro x hx
+  have := hi.subs id hid x hx
+  exact ⟨hi.effk x this.1 this.2, by rw [← hi.len]; exact this.2, by omega⟩
+
+theorem setSig_noop {K : Nat} {st : St} (hi : RInv K st) {id : Nat} (hid : K ≤ id) (v : Int) :
+    (setSig st id v).rs = st.rs := by
+  simp only [setSig, Reactive.step]
+  rcases Nat.lt_or_ge id st.prog.length with hlt | hge
+  · obtain ⟨x, hx, _⟩ := hi.effp id hid hlt
+    simp [hx]
+  · rw [List.getElem?_eq_none hge]
+
+theorem setSig_inv {K : Nat} {st : St} (hi : RInv K st) (id : Nat) (v : Int) : RInv K (setSig st id v) := by
+  rcases Nat.lt_or_ge id K with hid | hid
+  · have g := setSig_get hi hid v
+    have hkind : ∀ i, ((setSig st id v).rs.get i).kind = (st.rs.get i).kind := by
+      intro i; rw [g.2.2 i]; split
+      · next h => subst h; rfl
+      · split
+        · exact wake_kind _
+        · rfl
+    have hsrc : ∀ i, ((setSig st id v).rs.get i).sources = (st.rs.get i).sources := by
+      intro i; rw [g.2.2 i]; split
+      · next h => subst h; rfl
+      · split
+        · exact wake_sources _
+        · rfl
+    have hsub : ∀ i, ((setSig st id v).rs.get i).subs = (st.rs.get i).subs := by
+      intro i; rw [g.2.2 i]; split
+      · next h => subst h; rfl
+      · split
+        · exact wake_subs _
+        · rfl
+    refine ⟨?_, ?_, hi.kle, ?_, hi.sigp, hi.effp, ?_, ?_, ?_, ?_, ?_, ?_⟩
+    · show st.prog.length = _; rw [g.1]; exact hi.len
+    · rw [g.2.1]; exact hi.obs
+    · intro i h; rw [hkind]; exact hi.sigs i h
+    · intro i h1 h2; rw [hkind]; exact hi.effk i h1 h2
+    · intro i h1 x hx; rw [hsrc] at hx; exact hi.srcs i h1 x hx
+    · intro i h1 x hx; rw [hsub] at hx; exact hi.subs i h1 x hx
+    · intro i h1; rw [hsub]; exact hi.esubs i h1
+    · intro i; rw [hsub]; exact hi.nd i
+    · intro i y hy; rw [hsub] at hy; rw [hsrc]; exact hi.exact i y hy
+  · exact hi.of_rs_prog rfl (setSig_noop hi hid v)
+
+theorem EffOK.after_set {K : Nat} {st : St} {e : Nat} {x : Expr} {cur : Int → Prop}
+    (h : EffOK K st e x cur) (hi : RInv K st) (id : Nat) (v : Int) : EffOK K (setSig st id v) e x cur := by
+  rcases Nat.lt_or_ge id K with hid | hid
+  · have g := setSig_get hi hid v
+    have hne : e ≠ id := by have := h.ke; omega
+    have hs := h.sigOnly hi
+    simp only [RView.sigOnly, Bool.and_eq_true] at hs
+    have ge : (setSig st id v).rs.get e =
+        if e ∈ (st.rs.get id).subs then wake (st.rs.get e) else st.rs.get e := by
+      rw [g.2.2 e]; simp [hne]
+    by_cases hm : e ∈ (st.rs.get id).subs
+    · -- woken: pending
+      have ge' : (setSig st id v).rs.get e = wake (st.rs.get e) := by rw [ge]; simp [hm]
+      refine ⟨h.ke, h.lt, h.prog, by rw [ge', wake_alive]; exact h.alive,
+        by rw [ge', wake_done]; exact h.done, h.task, Or.inl ?_⟩
+      simp only [pending, ge', wake, h.alive, if_true, and_self]
+    · have ge' : (setSig st id v).rs.get e = st.rs.get e := by rw [ge]; simp [hm]
+      refine ⟨h.ke, h.lt, h.prog, by rw [ge']; exact h.alive, by rw [ge']; exact h.done, h.task, ?_⟩
+      rcases h.ok with hp | hc
+      · left; simp only [pending, ge']; exact hp
+      · right
+        -- `id` is not read by `x` under the old environment
+        have hnr : id ∉ readsU (Reactive.envOf st.rs) x := fun hr => hm (hc.2.2 id hr)
+        have hag : ∀ i ∈ readsU (Reactive.envOf st.rs) x,
+            Reactive.envOf st.rs i = Reactive.envOf (setSig st id v).rs i := by
+          intro i hr
+          have hii : i ≠ id := fun hh => hnr (hh ▸ hr)
+          simp only [Reactive.envOf]
+          rw [g.2.2 i]; simp only [hii, if_false]
+          split
+          · rw [wake_val]
+          · rfl
+        have hd := reads_determine x hs.1.2 hag
+        refine ⟨by rw [ge']; exact hc.1, by rw [← hd.1]; exact hc.2.1, ?_⟩
+        intro i hr
+        rw [← hd.2] at hr
+        have hii : i ≠ id := fun hh => hnr (hh ▸ hr)
+        have : ((setSig st id v).rs.get i).subs = (st.rs.get i).subs := by
+          rw [g.2.2 i]; simp only [hii, if_false]
+          split
+          · exact wake_subs _
+          · rfl
+        rw [this]; exact hc.2.2 i hr
+  · have hr := setSig_noop hi hid v
+    refine ⟨h.ke, h.lt, h.prog, by rw [hr]; exact h.alive, by rw [hr]; exact h.done, h.task, ?_⟩
+    simp only [pending, hr]
+    exact h.ok
+
+
+/-! ## transporting `Good` along a change of state that keeps every effect of the tree OK -/
+
+theorem GoodAttr.map {K : Nat} {st st' : St} :
+    ∀ {a : Attr} {s : AState}, GoodAttr K st a s →
+      (∀ e x cur, e ∈ s.effs → EffOK K st e x cur → EffOK K st' e x cur) → GoodAttr K st' a s
+  | .stat _ _, .stat _ _, h, _ => h
+  | .dyn _ _, .dyn e _ _ _, h, hm => ⟨h.1, h.2.1, hm e _ _ (by simp [AState.effs]) h.2.2⟩
+  | .cls _ _, .cls e _ _ _, h, hm => ⟨h.1, h.2.1, hm e _ _ (by simp [AState.effs]) h.2.2⟩
+  | .sty _ _, .sty e _ _ _, h, hm => ⟨h.1, h.2.1, hm e _ _ (by simp [AState.effs]) h.2.2⟩
+  | .stat _ _, .dyn _ _ _ _, h, _ => h.elim
+  | .stat _ _, .cls _ _ _ _, h, _ => h.elim
+  | .stat _ _, .sty _ _ _ _, h, _ => h.elim
+  | .dyn _ _, .stat _ _, h, _ => h.elim
+  | .dyn _ _, .cls _ _ _ _, h, _ => h.elim
+  | .dyn _ _, .sty _ _ _ _, h, _ => h.elim
+  | .cls _ _, .stat _ _, h, _ => h.elim
+  | .cls _ _, .dyn _ _ _ _, h, _ => h.elim
+  | .cls _ _, .sty _ _ _ _, h, _ => h.elim
+  | .sty _ _, .stat _ _, h, _ => h.elim
+  | .sty _ _, .dyn _ _ _ _, h, _ => h.elim
+  | .sty _ _, .cls _ _ _ _, h, _ => h.elim
+
+theorem GoodAttrs.map {K : Nat} {st st' : St} :
+    ∀ {as : List Attr} {ss : List AState}, GoodAttrs K st as ss →
+      (∀ e x cur, e ∈ ss.flatMap AState.effs → EffOK K st e x cur → EffOK K st' e x cur) →
+      GoodAttrs K st' as ss
+  | [], [], _, _ => trivial
+  | _ :: _, s :: ss, h, hm =>
+    ⟨h.1.map (fun e x cur he => hm e x cur (by simp [he])),
+     GoodAttrs.map h.2 (fun e x cur he => hm e x cur (by
+       simp only [List.flatMap_cons, List.mem_append]; exact Or.inr he))⟩
+  | [], _ :: _, h, _ => h.elim
+  | _ :: _, [], h, _ => h.elim
+
+theorem Good.map {K : Nat} {st st' : St} :
+    ∀ (v : View) (t : RState), Good K st v t →
+      (∀ e x cur, e ∈ effsOf t → EffOK K st e x cur → EffOK K st' e x cur) → Good K st' v t := by
+  intro v
+  induction v with
+  | text s => intro t h _; cases t <;> simp only [Good] at h ⊢ <;> exact h
+  | unit => intro t h _; cases t <;> simp only [Good] at h ⊢
+  | elem tag attrs kid ih =>
+    intro t h hm
+    cases t <;> simp only [Good] at h ⊢
+    next n tag' as k =>
+      exact ⟨h.1, h.2.1.map (fun e x cur he => hm e x cur (by simp [effsOf, he])),
+        ih k h.2.2 (fun e x cur he => hm e x cur (by simp [effsOf, he]))⟩
+  | seq a b iha ihb =>
+    intro t h hm
+    cases t <;> simp only [Good] at h ⊢
+    next sa sb =>
+      exact ⟨iha sa h.1 (fun e x cur he => hm e x cur (by simp [effsOf, he])),
+        ihb sb h.2 (fun e x cur he => hm e x cur (by simp [effsOf, he]))⟩
+  | dynText x =>
+    intro t h hm
+    cases t <;> simp only [Good] at h ⊢
+    next e x' n last => exact ⟨h.1, hm e _ _ (by simp [effsOf]) h.2⟩
+  | either c a b iha ihb =>
+    intro t h hm
+    cases t <;> simp only [Good] at h ⊢
+    next e c' a' b' left inner =>
+      refine ⟨h.1, h.2.1, h.2.2.1, hm e _ _ (by simp [effsOf]) h.2.2.2.1, ?_, ?_⟩
+      · intro hl; exact iha inner (h.2.2.2.2.1 hl) (fun e x cur he => hm e x cur (by simp [effsOf, he]))
+      · intro hl; exact ihb inner (h.2.2.2.2.2 hl) (fun e x cur he => hm e x cur (by simp [effsOf, he]))
+  | «show» c a b _ _ => intro t h _; cases t <;> simp only [Good] at h
+  | forKeyed sel lists => intro t h _; cases t <;> simp only [Good] at h
+
+theorem Good.after_set {K : Nat} {st : St} (hi : RInv K st) (v : View) (t : RState) (h : Good K st v t)
+    (id : Nat) (w : Int) : Good K (setSig st id w) v t :=
+  Good.map v t h (fun _ _ _ _ he => he.after_set hi id w)
+
+/-- every effect of a good tree has its `EffOK` -/
+theorem GoodAttr.effOK {K : Nat} {st : St} : ∀ {a : Attr} {s : AState}, GoodAttr K st a s →
+    ∀ e ∈ s.effs, ∃ x cur, EffOK K st e x cur
+  | .stat _ _, .stat _ _, _, e, he => by simp [AState.effs] at he
+  | .dyn _ x, .dyn e' _ _ _, h, e, he => by
+    simp only [AState.effs, List.mem_singleton] at he; subst he; exact ⟨x, _, h.2.2⟩
+  | .cls _ x, .cls e' _ _ _, h, e, he => by
+    simp only [AState.effs, List.mem_singleton] at he; subst he; exact ⟨x, _, h.2.2⟩
+  | .sty _ x, .sty e' _ _ _, h, e, he => by
+    simp only [AState.effs, List.mem_singleton] at he; subst he; exact ⟨x, _, h.2.2⟩
+  | .stat _ _, .dyn _ _ _ _, h, _, _ => h.elim
+  | .stat _ _, .cls _ _ _ _, h, _, _ => h.elim
+  | .stat _ _, .sty _ _ _ _, h, _, _ => h.elim
+  | .dyn _ _, .stat _ _, h, _, _ => h.elim
+  | .dyn _ _, .cls _ _ _ _, h, _, _ => h.elim
+  | .dyn _ _, .sty _ _ _ _, h, _, _ => h.elim
+  | .cls _ _, .stat _ _, h, _, _ => h.elim
+  | .cls _ _, .dyn _ _ _ _, h, _, _ => h.elim
+  | .cls _ _, .sty _ _ _ _, h, _, _ => h.elim
+  | .sty _ _, .stat _ _, h, _, _ => h.elim
+  | .sty _ _, .dyn _ _ _ _, h, _, _ => h.elim
+  | .sty _ _, .cls _ _ _ _, h, _, _ => h.elim
+
+theorem GoodAttrs.effOK {K : Nat} {st : St} : ∀ {as : List Attr} {ss : List AState}, GoodAttrs K st as ss →
+    ∀ e ∈ ss.flatMap AState.effs, ∃ x cur, EffOK K st e x cur
+  | [], [], _, e, he => by simp at he
+  | _ :: _, s :: ss, h, e, he => by
+    simp only [List.flatMap_cons, List.mem_append] at he
+    rcases he with he | he
+    · exact h.1.effOK e he
+    · exact GoodAttrs.effOK h.2 e he
+  | [], _ :: _, h, _, _ => h.elim
+  | _ :: _, [], h, _, _ => h.elim
+
+theorem Good.effOK {K : Nat} {st : St} :
+    ∀ (v : View) (t : RState), Good K st v t → ∀ e ∈ effsOf t, ∃ x cur, EffOK K st e x cur := by
+  intro v
+  induction v with
+  | text s => intro t h e he; cases t <;> simp only [Good] at h; simp [effsOf] at he
+  | unit => intro t h e he; cases t <;> simp only [Good] at h; simp [effsOf] at he
+  | elem tag attrs kid ih =>
+    intro t h e he
+    cases t <;> simp only [Good] at h
+    next n tag' as k =>
+      simp only [effsOf, List.mem_append] at he
+      rcases he with he | he
+      · exact h.2.1.effOK e he
+      · exact ih k h.2.2 e he
+  | seq a b iha ihb =>
+    intro t h e he
+    cases t <;> simp only [Good] at h
+    next sa sb =>
+      simp only [effsOf, List.mem_append] at he
+      rcases he with he | he
+      · exact iha sa h.1 e he
+      · exact ihb sb h.2 e he
+  | dynText x =>
+    intro t h e he
+    cases t <;> simp only [Good] at h
+    next e' x' n last =>
+      simp only [effsOf, List.mem_singleton] at he; subst he; exact ⟨x, _, h.2⟩
+  | either c a b iha ihb =>
+    intro t h e he
+    cases t <;> simp only [Good] at h
+    next e' c' a' b' left inner =>
+      simp only [effsOf, List.mem_cons] at he
+      rcases he with he | he
+      · subst he; exact ⟨c, _, h.2.2.2.1⟩
+      · cases hl : left with
+        | true => exact iha inner (h.2.2.2.2.1 hl) e he
+        | false => exact ihb inner (h.2.2.2.2.2 hl) e he
+  | «show» c a b _ _ => intro t h _ _; cases t <;> simp only [Good] at h
+  | forKeyed sel lists => intro t h _ _; cases t <;> simp only [Good] at h
 
 end Leptos.RView
